@@ -490,7 +490,13 @@ func resolveObjectBatch(ctx context.Context, sources []interface{}, typ *Object,
 			destMap[selection.Alias] = filler
 		}
 
-		field := typ.Fields[selection.Name]
+		field, ok := typ.Fields[selection.Name]
+		if !ok {
+			// PrepareQuery checks every selection against the type it was written
+			// under, but selections that share an alias are merged, and then the
+			// sub-selections of one field can end up under the type of another.
+			return nil, nestPathError(selection.Alias, NewClientError(`unknown field "%s"`, selection.Name))
+		}
 		unit := &WorkUnit{
 			Ctx:          ctx,
 			field:        field,
